@@ -153,16 +153,7 @@ func c05Objects(o *wout, shard, n int, thorough bool) {
 		o.begin(mk)
 		if f := guarded(budget(400, 0), func() {
 			obj = b.fn()
-			obj.Contains(obj)
-			obj.Intersects(obj)
-			obj.JSON()
-			obj.Spatial().IntersectsRect(callRect)
-			pt := geojson.NewPoint(geometry.Point{X: 1, Y: 1})
-			obj.Contains(pt)
-			obj.Intersects(pt)
-			pt.Within(obj)
-			pt.Intersects(obj)
-			obj.Distance(pt)
+			buildQueries(obj)
 		}); f != "" {
 			o.fail("build-and-query", mk(), "constructs and answers within its budget", f)
 		}
